@@ -701,6 +701,7 @@ func (g *Graph) namedCondition(obj types.Object, k int64, eq bool, calls bool) (
 		}
 		return c
 	}
+	var defV *V
 	for _, v := range g.Vs {
 		as, ok := v.AST.(*ast.AssignStmt)
 		if !ok || len(as.Lhs) != len(as.Rhs) {
@@ -709,12 +710,66 @@ func (g *Graph) namedCondition(obj types.Object, k int64, eq bool, calls bool) (
 		for i, l := range as.Lhs {
 			if id, ok := ast.Unparen(l).(*ast.Ident); ok && g.Info.ObjectOf(id) == obj {
 				rhs = as.Rhs[i]
+				defV = v
 				n++
 			}
 		}
 	}
 	if n != 1 || rhs == nil || count(obj) != 1 {
 		return nil, false, false
+	}
+	// a variable of the condition that is assigned more than once is still
+	// described by the sampled condition if none of its assignments can
+	// follow the sampling (a counter filled by a loop before it is tested)
+	var after map[*V]bool
+	var uses []*V
+	assigns := func(v *V, o types.Object) bool {
+		switch x := v.AST.(type) {
+		case *ast.AssignStmt:
+			for _, l := range x.Lhs {
+				if id, ok := ast.Unparen(l).(*ast.Ident); ok && g.Info.ObjectOf(id) == o {
+					return true
+				}
+			}
+		case *ast.IncDecStmt:
+			if id, ok := ast.Unparen(x.X).(*ast.Ident); ok && g.Info.ObjectOf(id) == o {
+				return true
+			}
+		case *ast.RangeStmt:
+			for _, e := range []ast.Expr{x.Key, x.Value} {
+				if id, ok := e.(*ast.Ident); ok && g.Info.ObjectOf(id) == o {
+					return true
+				}
+			}
+		}
+		return false
+	}
+	changedAfter := func(o types.Object) bool {
+		if after == nil {
+			// what can follow the sampling before the condition is sampled again
+			after = g.reachPlain(defV, false, AvoidVs(defV))
+			for _, v := range g.Vs {
+				if v == defV || v.AST == nil {
+					continue
+				}
+				if Mentions(g.Info, v.AST, obj) {
+					uses = append(uses, v)
+				}
+			}
+		}
+		for v := range after {
+			if !assigns(v, o) {
+				continue
+			}
+			// ... and a test of the named condition can follow that assignment without a new sampling
+			r := g.reachPlain(v, false, AvoidVs(defV))
+			for _, u := range uses {
+				if r[u] {
+					return true
+				}
+			}
+		}
+		return false
 	}
 	if tv, ok := g.Info.Types[rhs]; ok && tv.Value != nil {
 		return nil, false, false
@@ -730,7 +785,7 @@ func (g *Graph) namedCondition(obj types.Object, k int64, eq bool, calls bool) (
 			}
 		case *ast.Ident:
 			if v, ok := g.Info.ObjectOf(x).(*types.Var); ok && !v.IsField() && v.Pkg() != nil && v.Parent() != v.Pkg().Scope() {
-				if count(v) > 1 {
+				if count(v) > 1 && changedAfter(v) {
 					stable = false
 				}
 			}
